@@ -2047,11 +2047,17 @@ class Interp:
                 self.log("dict.set", node, obj=obj, key=idx, value=value)
                 return
             if isinstance(o, HList):
-                if o.concrete() and isinstance(idx, Const) and isinstance(idx.value, int):
+                if isinstance(idx, LinV) and F.lin_is_const(idx.lin):
+                    idx = Const(idx.lin[1])  # (a computed position that is a number: min(side, 1), i + 1)
+                if o.concrete() and isinstance(idx, Const) and isinstance(idx.value, int) and not isinstance(idx.value, bool):
                     try:
                         o.segs[idx.value] = ("one", value)
                     except IndexError:
                         raise RaiseSig(ExcV("IndexError"), node)
+                elif idx is not None and not isinstance(idx, ast.AST):
+                    # a store at a position the analysis does not know: what the list holds afterwards is not known either (the
+                    # store used to be dropped, which left the old content standing - an unsound model)
+                    o.segs = [("sym", ("setitem", self.list_desc(o), desc(idx), desc(value)))]
                 self.log("list.setitem", node, obj=obj, key=idx, value=value)
                 return
             if isinstance(o, HOpaque):
